@@ -165,6 +165,41 @@ def run(case):
         else:
             out = {"t": "err", "e": "WrongType"}
             why.append(f"unexpected result type {type(r).__name__}")
+        # ---- the result is a sequence in its own right: index it as a cube once more
+        if not why and isinstance(r, NDCubeSequence) and len(r.data) > 0 and r._common_axis is not None:
+            import zlib
+            nca = r._common_axis
+            parts = [c.data for c in r.data]
+            full2 = np.concatenate(parts, axis=nca)
+            L2 = full2.shape[nca]
+            it2 = [slice(1, None), 0, slice(None, -1), -1, slice(0, 1), L2 - 1][zlib.crc32(("second" + case["key"]).encode()) % 6]
+            item2 = tuple([slice(None)] * nca + [it2])
+            try:
+                exp2, exp2_exc = full2[item2], None
+            except IndexError:
+                exp2, exp2_exc = None, "IndexError"
+            if not (isinstance(it2, int) and full2.ndim == 1):          # (an int on a 1-D cube would give a 0-d cube)
+                try:
+                    r2, exc2 = r.index_as_cube[item2], None
+                except Exception as e:  # noqa
+                    r2, exc2 = None, exc_name(e)
+                if exc2 is not None and exp2_exc is None:
+                    why.append(f"indexing the result as a cube once more with {it2} raised {exc2}")
+                elif exc2 is None and exp2_exc is not None:
+                    why.append(f"indexing the result as a cube once more with {it2} accepted a position past the end")
+                elif exc2 is None:
+                    if isinstance(r2, NDCube):
+                        got2 = r2.data
+                    else:
+                        ca2 = r2._common_axis
+                        got2 = np.concatenate([c.data for c in r2.data], axis=ca2) if len(r2.data) and ca2 is not None else None
+                        if got2 is not None and any(c.data.shape[ca2] == 0 for c in r2.data):
+                            why.append("indexing the result as a cube once more kept a cube that contributes nothing")
+                    if got2 is None:
+                        if exp2.size != 0:
+                            why.append("indexing the result as a cube once more returned nothing for a non-empty selection")
+                    elif got2.shape != exp2.shape or not np.array_equal(got2, exp2):
+                        why.append(f"indexing the result as a cube once more with {it2} differs from numpy on the result's concatenation")
     return {"out": out, "oracle": {"ok": not why, "why": "; ".join(why), "finding": None}}
 
 
